@@ -9,10 +9,12 @@ CONSTANTS
   DollarAnchor = FALSE
   UnicodeDigits = FALSE
   NoRollback = FALSE
+  StaleKey = FALSE
 SPECIFICATION BndSpec
 INVARIANT AcceptExact
 INVARIANT DecomposeAgree
 INVARIANT Lossless
 INVARIANT ZonesDisjoint
 INVARIANT ObjConsistent
+INVARIANT KeyFresh
 CHECK_DEADLOCK FALSE
